@@ -51,6 +51,13 @@ def check(ctx: Ctx):
     from ..rules import tracking
 
     tracking.check_track_append(ctx, rules=("PAIR",))
+    # writers iterate their frames once: a pre-flight loop over a one-shot `items()` iterator leaves nothing for the write loop
+    from ..rules import iteronce as _iteronce
+
+    for q_ in ("droplets.emulsions.EmulsionTimeCourse.to_file", "droplets.droplet_tracks.DropletTrackList.to_file", "droplets.droplet_tracks.DropletTrack.to_file", "droplets.emulsions.Emulsion.to_file"):
+        if ctx.model.has_func(q_):
+            _iteronce.check_local_iterators(ctx, ctx.model.func(q_))
+            _iteronce.check_function(ctx, ctx.model.func(q_))
     ctx.expect("PAIR", 5)
     col.check_copy_total(ctx)
     ctx.expect("NONETEST", 3)
